@@ -52,19 +52,28 @@ CmpLog(who, model, real) ==
        THEN who \o ":" \o (IF Len(model) < Len(real) THEN "code-executes-more" ELSE "code-executes-fewer")
   ELSE LET j == CHOOSE i \in 1..Min2(Len(model), Len(real)) : model[i] # real[i] /\ \A q \in 1..(i - 1) : model[q] = real[q]
        IN who \o ":" \o FillField[FirstDiff(model[j], real[j])]
+\* the recorded real runs compared with each other (the property itself, on a scenario TLC classified as inside it)
+RealDiff(rn, rf) ==
+  IF rf.exc # "none" THEN "fast-raises"
+  ELSE IF CmpLog("x", rn.fills, rf.fills) # "ok" THEN CmpLog("orders", rn.fills, rf.fills)
+  ELSE IF rn.bal # rf.bal THEN "balance" ELSE "ok"
 Judge ==
   LET tn == Terminate(sn, m)
       tf == IF fstat = "run" THEN Terminate(sf, m) ELSE sf
       rn == Traces[tid].norm
       rf == Traces[tid].fast
   IN IF tn.err # "none" \/ tf.err # "none" THEN "model:internal-error"
-     ELSE IF rn.exc # "none" THEN "normal:raises"
-     ELSE IF CmpLog("normal", tn.log, rn.fills) # "ok" THEN CmpLog("normal", tn.log, rn.fills)
-     ELSE IF tn.bal # rn.bal THEN "normal:balance"
-     ELSE IF (fstat = "run") # (rf.exc = "none") THEN "fast:exception-" \o (IF fstat = "run" THEN "unexpected" ELSE "missing")
+     \* 1. the model must describe the normal simulator (it also classifies the scenario)
+     ELSE IF rn.exc # "none" THEN "model:normal:raises"
+     ELSE IF CmpLog("model:normal", tn.log, rn.fills) # "ok" THEN CmpLog("model:normal", tn.log, rn.fills)
+     ELSE IF tn.bal # rn.bal THEN "model:normal:balance"
+     \* 2. C12 on the real runs: inside antecedent + quantifier both simulators must have done the same
+     ELSE IF pre = "ok" /\ RealDiff(rn, rf) # "ok" THEN "c12:" \o RealDiff(rn, rf)
+     \* 3. the model must describe the fast simulator
+     ELSE IF (fstat = "run") # (rf.exc = "none") THEN "model:fast:exception-" \o (IF fstat = "run" THEN "unexpected" ELSE "missing")
      ELSE IF fstat # "run" THEN "ok"
-     ELSE IF CmpLog("fast", tf.log, rf.fills) # "ok" THEN CmpLog("fast", tf.log, rf.fills)
-     ELSE IF tf.bal # rf.bal THEN "fast:balance"
+     ELSE IF CmpLog("model:fast", tf.log, rf.fills) # "ok" THEN CmpLog("model:fast", tf.log, rf.fills)
+     ELSE IF tf.bal # rf.bal THEN "model:fast:balance"
      ELSE "ok"
 Final == /\ l = Len(Hist(tid)) + 1 /\ verdict' = Judge /\ l' = l + 1 /\ UNCHANGED <<tid, m, prevC, sn, sf, fstat, pre, wf, wlo, whi, wpx>>
 Next == verdict = "ok" /\ (Step \/ Final)
